@@ -66,9 +66,20 @@ func (ds *DataSchema) record(r *rand.Rand, o DataOpts, depth int) *refavro.Schem
 	}
 	for i := 0; i < n; i++ {
 		name := fmt.Sprintf("f%d", i)
-		if i > 0 && r.IntN(8) == 0 {
-			// a sibling whose name differs from an earlier one only in case
-			name = fmt.Sprintf("F%d", r.IntN(i))
+		if n > 1 && r.IntN(8) == 0 {
+			// a sibling whose name differs from another one's only in case; in a generated target it is also the
+			// Go identifier (F<j>) of that other field, which may come earlier or later
+			if j := r.IntN(n); j != i {
+				name = fmt.Sprintf("F%d", j)
+			}
+			for _, f := range s.Fields {
+				if f.Name == name {
+					name = fmt.Sprintf("f%d", i)
+				}
+			}
+		} else if r.IntN(40) == 0 {
+			// a name that is also a struct-tag option keyword
+			name = pick(r, []string{"omitempty", "string", "omitzero"})
 			for _, f := range s.Fields {
 				if f.Name == name {
 					name = fmt.Sprintf("f%d", i)
@@ -342,4 +353,65 @@ func (c *RandChooser) SizePrefix() bool {
 		c.Prefixed++
 	}
 	return p
+}
+
+// GenFixedWidthSchema: records (nested up to two levels) made only of float, double and fixed fields - values
+// whose wire form is their memory form, which is what bulk-copy fast paths look for.
+func GenFixedWidthSchema(r *rand.Rand) *DataSchema {
+	ds := &DataSchema{Hints: map[*refavro.Schema]*Hint{}}
+	var rec func(depth int) *refavro.Schema
+	rec = func(depth int) *refavro.Schema {
+		ds.names++
+		s := &refavro.Schema{Type: "record", ObjectForm: true, Name: fmt.Sprintf("W%d", ds.names), Fields: []refavro.Field{}}
+		n := 2 + r.IntN(4)
+		for i := 0; i < n; i++ {
+			var ft *refavro.Schema
+			switch k := r.IntN(8); {
+			case k < 3:
+				ft = &refavro.Schema{Type: "double"}
+				ds.Hints[ft] = &Hint{F32Exact: r.IntN(2) == 0}
+			case k < 5:
+				ft = &refavro.Schema{Type: "float"}
+			case k < 7 || depth >= 2:
+				ds.names++
+				ft = &refavro.Schema{Type: "fixed", ObjectForm: true, Name: fmt.Sprintf("X%d", ds.names), Size: pick(r, []int{4, 8, 8, 16, 12})}
+			default:
+				ft = rec(depth + 1)
+			}
+			s.Fields = append(s.Fields, refavro.Field{Name: fmt.Sprintf("f%d", i), Type: ft})
+		}
+		return s
+	}
+	ds.S = rec(0)
+	return ds
+}
+
+// GenZeroWidthSchema: a record whose encoding is zero bytes long (no fields, or only null, fixed(0) and nested
+// records of that kind). A file of such records is legal: its blocks declare N records and hold no payload bytes.
+func GenZeroWidthSchema(r *rand.Rand) *DataSchema {
+	ds := &DataSchema{Hints: map[*refavro.Schema]*Hint{}}
+	var rec func(depth int) *refavro.Schema
+	rec = func(depth int) *refavro.Schema {
+		ds.names++
+		s := &refavro.Schema{Type: "record", ObjectForm: true, Name: fmt.Sprintf("Z%d", ds.names), Fields: []refavro.Field{}}
+		n := r.IntN(4)
+		for i := 0; i < n; i++ {
+			var ft *refavro.Schema
+			switch k := r.IntN(4); {
+			case k == 0:
+				ft = &refavro.Schema{Type: "null"}
+			case k == 1:
+				ds.names++
+				ft = &refavro.Schema{Type: "fixed", ObjectForm: true, Name: fmt.Sprintf("X%d", ds.names), Size: 0}
+			case depth < 2:
+				ft = rec(depth + 1)
+			default:
+				ft = &refavro.Schema{Type: "null"}
+			}
+			s.Fields = append(s.Fields, refavro.Field{Name: fmt.Sprintf("f%d", i), Type: ft})
+		}
+		return s
+	}
+	ds.S = rec(0)
+	return ds
 }
